@@ -166,7 +166,10 @@ func Check(model porcupine.Model, ops []porcupine.Operation, timeout time.Durati
 	}
 	// describe the partition that failed: list its operations in call order
 	var sb strings.Builder
-	parts := model.Partition(ops)
+	parts := [][]porcupine.Operation{ops}
+	if model.Partition != nil {
+		parts = model.Partition(ops)
+	}
 	lin := info.PartialLinearizationsOperations()
 	for pi, p := range parts {
 		best := 0
